@@ -457,7 +457,6 @@ for _id, _prop, _rule, _desc, _eb in [
     ("c01-rr-ttl-not-stored", "C01", "R01.3", "add_generic_rrlist that no longer stores the TTL the reader restores", False),
     ("c01-presence-test-inverted-read", "C01", "R01.18", "read_generic_qr with `if (!qr.response_processing_data)`", False),
     ("c01-presence-test-inverted-hash", "C01", "R01.18", "hash_value(QueryResponseSignature) with `if (!qrs.qr_transport_flags)`", False),
-    ("c03-optional-not-engaged", "C03", "R03.12", "QueryResponse::read dereferencing response_processing_data without storing a value into it first", True),
     ("c19-reindex-counts-down", "C19", "R19.5", "BlockTable::rebuild_indexes entering the items under 0, -1, -2 ..", False),
     ("c01-read-cursor-starts-at-one", "C01", "R01.19", "CdnsBlockRead::read leaving m_mm_read at 1: the first malformed message of every block is skipped", False),
     ("c17-negative-offset-added", "C17", "R17.7", "add_time_offset adding the magnitude of a negative offset", False),
